@@ -15,7 +15,38 @@ def kwmap(node):
     return {k.arg: k.value for k in node.keywords}
 
 
+def callee_text(f):
+    try:
+        return ast.unparse(f)
+    except Exception:
+        return ''
+
+
+def site_call_obligations(fv, node, st):
+    """site_call("callee", name, expr): obligation in the state just before the call, with arg0..argN / kw_<name> bound"""
+    txt = callee_text(node.func)
+    hits = [(n, e) for t, n, e in fv.c.site_calls if t == txt or txt.endswith('.' + t) or t == txt.split('.')[-1]]
+    if not hits:
+        return
+    binds = {}
+    for i, a in enumerate(node.args):
+        binds['arg%d' % i] = fv.ev(a, st, False)
+    for k in node.keywords:
+        if k.arg:
+            binds['kw_' + k.arg] = fv.ev(k.value, st, False)
+    fv.bound_env.append(binds)
+    try:
+        for n, e in hits:
+            g = fv.truthy(fv.ev(e, st, True))
+            from .heap import site_ordinal
+            fv.oblige(st, 'site[call %s@%s]/inv[%s]' % (txt, node.lineno - fv.fn.lineno if fv.fn else 0, n), g, node)
+    finally:
+        fv.bound_env.pop()
+
+
 def eval_call(fv, node, st, spec):
+    if not spec and fv.c is not None and fv.c.site_calls and not fv.binders and not fv.bound_env:
+        site_call_obligations(fv, node, st)
     f = node.func
     if isinstance(f, ast.Name):
         name = f.id
@@ -791,6 +822,15 @@ def bi_dict(fv, node, st, spec):
 def bi_isinstance(fv, node, st, spec):
     v = fv.ev(node.args[0], st, spec)
     cn = node.args[1]
+    if isinstance(cn, ast.Name) and fv.fn is not None and not (fv.module and (cn.id in fv.module.classes
+                                                                              or cn.id in fv.module.imports)):
+        # a local variable holding a tuple of classes: use its (unique) literal definition in this function
+        defs = [n.value for n in ast.walk(fv.fn) if isinstance(n, ast.Assign) and len(n.targets) == 1
+                and isinstance(n.targets[0], ast.Name) and n.targets[0].id == cn.id]
+        if len(defs) == 1 and isinstance(defs[0], ast.Tuple):
+            cn = defs[0]
+        elif defs:
+            fv.err(node, 'isinstance against a non-literal class tuple %s' % cn.id)
     names = []
     for e in (cn.elts if isinstance(cn, ast.Tuple) else [cn]):
         if isinstance(e, ast.Attribute) and isinstance(e.value, ast.Name):
@@ -920,8 +960,13 @@ def call_method(fv, node, st, spec):
     if rt.is_obj:
         c = receiver_family_contract(fv, rt.name, meth)
         if c is None:
+            c = fv.E.find_contract('<any>.' + meth)
+        if c is None:
             fv.err(node, 'no contract for method %s.%s' % (rt.name, meth))
         return apply_contract(fv, c, node, st, spec, recv)
+    if rt.is_any and fv.E.find_contract('<any>.' + meth) is not None:
+        # duck-typed call: a contract that every class providing this method is assumed to satisfy
+        return apply_contract(fv, fv.E.find_contract('<any>.' + meth), node, st, spec, recv)
     fv.err(node, 'method .%s on %r' % (meth, rt))
 
 
